@@ -172,3 +172,60 @@ func H_C16_reconnect() {
 	}
 	verifrt.Assert(!crashed, "process-survives")
 }
+
+// H_C16_names_client_message: after one answered request (which the client acknowledges), the server sends a
+// message that names a msg_id the client itself has used - the answered request's or the acknowledgement's
+// (symbolic choice) - in each field that carries such an id. A real server does this (bad_server_salt for every
+// message that carried the old salt, repeated results, state info). The loop survives, later requests complete.
+func H_C16_names_client_message(kind int) {
+	verifrt.SetClock(1600000000, 0, 1000)
+	n := newNetEnv(5)
+	n.m.Warnings = make(chan error)
+	go func() {
+		for range n.m.Warnings {
+		}
+	}()
+	crashed := verifrt.Catch(func() {
+		n.start()
+		n.probe("first-")
+		verifrt.Quiesce()
+		log := n.t.log
+		verifrt.Assert(len(log) >= 2, "client-acknowledged-the-answer")
+		if len(log) == 0 {
+			return
+		}
+		id := log[verifrt.Choice(len(log))].msgID
+		var body []byte
+		name := ""
+		switch kind {
+		case 0:
+			body, name = mustMarshal(&objects.BadServerSalt{BadMsgID: id, BadMsgSeqNo: verifrt.I32(), ErrorCode: 48, NewSalt: verifrt.I64()}), "bad_server_salt"
+		case 1:
+			body, name = rpcResult(id, mustMarshal(&objects.Pong{MsgID: id, PingID: verifrt.I64()})), "rpc_result"
+		case 2:
+			body, name = mustMarshal(&objects.BadMsgNotification{BadMsgID: id, BadMsgSeqNo: verifrt.I32(), Code: verifrt.I32()}), "bad_msg_notification"
+		case 3:
+			body, name = mustMarshal(&objects.MsgsAck{MsgIDs: []int64{id}}), "msgs_ack"
+		case 4:
+			body, name = mustMarshal(&objects.Pong{MsgID: id, PingID: verifrt.I64()}), "pong"
+		case 5:
+			body, name = rpcResult(id, mustMarshal(&objects.RpcError{ErrorCode: verifrt.I32(), ErrorMessage: "X"})), "rpc_result-rpc_error"
+		case 6:
+			body, name = mustMarshal(&objects.MsgsDetailedInfo{MsgID: id, AnswerMsgID: verifrt.I64(), Bytes: 1, Status: 1}), "msg_detailed_info"
+		case 7:
+			body, name = mustMarshal(&objects.MsgsStateInfo{ReqMsgID: id, Info: []byte{1}}), "msgs_state_info"
+		}
+		verifrt.Note(name)
+		seq := int32(2)
+		if verifrt.Bool() {
+			seq = 3
+		}
+		n.deliver(body, seq)
+		verifrt.Quiesce()
+		n.probe("after-naming-" + name + "-")
+	})
+	if crashed {
+		verifrt.Note("crash: " + verifrt.PanicMsg())
+	}
+	verifrt.Assert(!crashed, "process-survives")
+}
